@@ -305,10 +305,12 @@ def lossy_casts(term):
     return out
 
 
-def hidden_state(rep, rule, w, terms, allowed):
+def hidden_state(rep, rule, w, terms, allowed, f=None):
     """the result may depend on the distribution only through the attributes in `allowed`: reading any other
     attribute of self (a cache written by earlier calls) makes the answer depend on the call history"""
     extra = sorted({x[1] for t in terms for x in walk(t) if isinstance(x, tuple) and len(x) == 2 and x[0] == "self" and x[1] not in allowed})
+    if f is not None:
+        extra = history_attrs(f, extra)
     if extra:
         rep.bad(rule, w, "the result reads self.%s, state that is not part of the distribution (mean / covariance): it depends on what earlier calls left there" % ", self.".join(extra))
     else:
@@ -515,6 +517,35 @@ def message_safe(rep, S, f, rule):
     return n
 
 
+def history_attrs(f, hidden):
+    """of the attributes a method reads, those that can carry history: written by some method other than __init__, or never
+    defined by __init__.  An attribute that only the constructor sets (a flag, a name, a setting) is constant over the object's life."""
+    hidden = list(hidden)
+    cls = f.module.classes.get(f.cls) if f.cls else None
+    if cls is not None and hidden:
+        set_in_init, set_elsewhere = set(), set()
+        for mname, mf in cls["methods"].items():
+            for n_ in ast.walk(mf.node):
+                tgts = []
+                if isinstance(n_, ast.Assign):
+                    tgts = n_.targets
+                elif isinstance(n_, (ast.AugAssign, ast.AnnAssign)):
+                    tgts = [n_.target]
+                elif isinstance(n_, ast.Call) and isinstance(n_.func, ast.Name) and n_.func.id == "setattr" and n_.args and isinstance(n_.args[0], ast.Name) and n_.args[0].id == "self":
+                    set_elsewhere.add("*")
+                for t_ in tgts:
+                    for y in ast.walk(t_):
+                        if isinstance(y, ast.Attribute) and isinstance(y.value, ast.Name) and y.value.id == "self":
+                            (set_in_init if mname == "__init__" else set_elsewhere).add(y.attr)
+            if mname != "__init__":
+                for n_ in ast.walk(mf.node):      # self.x.append(...) / self.x[k] = ... / self.x.update(...) outside the constructor
+                    if isinstance(n_, ast.Call) and isinstance(n_.func, ast.Attribute) and n_.func.attr in ("append", "update", "setdefault", "add", "pop", "extend", "clear", "insert", "remove") \
+                            and isinstance(n_.func.value, ast.Attribute) and isinstance(n_.func.value.value, ast.Name) and n_.func.value.value.id == "self":
+                        set_elsewhere.add(n_.func.value.attr)
+        hidden = [a for a in hidden if a in set_elsewhere or "*" in set_elsewhere or a not in set_in_init]
+    return hidden
+
+
 def model_history(rep, S, f, model_attrs, rule):
     """what a method of a model hands out is a function of the model's defining attributes and of this call's arguments only:
     reading any other attribute of self (a cache) or writing an attribute makes the answer depend on the call history"""
@@ -525,6 +556,7 @@ def model_history(rep, S, f, model_attrs, rule):
                 list(getattr(fact, "args", []) or []) + list((getattr(fact, "kwargs", {}) or {}).values())
     hidden = sorted({x[1] for t in seen_terms if t is not None for x in walk(t) if isinstance(x, tuple) and len(x) == 2 and x[0] == "self" and isinstance(x[1], str)
                      and x[1] not in model_attrs})
+    hidden = history_attrs(f, hidden)
     rebound = sorted({a.attr for a in S.select("attrstore", qname=f.qname)})
     if hidden or rebound:
         rep.bad(rule, fwhere(f), "%s %s: what it returns depends on what earlier calls left on the object" % (f.name, "; ".join(
